@@ -236,6 +236,40 @@ fn @name@() {
 """, name=nm, fi=fi, unwind=unwind), functions=["Syllable::apply_seg_mods", "Syllable::get_seg_length_at", "Syllable::apply_supras", "Segment::apply_seg_mods"],
             symbolic="3 bundles (long segment a, neighbours x, y != a), polarity, stress, tone", shape="syllable [x a a y], [±%s] at the long segment" % fname(fi), unwind=unwind, stubs=STUBS, cap_s=1500, jobs=6))
 
+    # ---------------------------------------------------------------- a feature and a length modifier in ONE output matrix
+    # `[+long, ±F]` on a short segment / `[-long, ±F]` on a long one: every copy of the resulting run carries the new value,
+    # no neighbour is touched (Syllable::apply_seg_mods orders the feature loop and apply_supras by hand)
+    fl_shapes = [(15, True), (11, False)] if tier == "quick" else [(15, True), (11, False), (20, True), (6, False), (24, True), (2, False)]
+    for (fi, grow) in fl_shapes:
+        nm = "c04_feat_and_length_%02d_%s" % (fi, "lengthen" if grow else "shorten")
+        segs = "x, a, y" if grow else "x, a, a, y"
+        hs.append(G.H(nm, "apply-feature-and-length", "subrule", G.T(HDR + """
+fn @name@() {
+    let a = any_seg(); let x = any_seg(); let y = any_seg();
+    kani::assume(a != x && a != y);
+    let b = any_bin();
+    let e = ref_apply_feat(&a, @fi@, b == BinMod::Positive);
+    kani::assume(!same_features(&e, &x) && !same_features(&e, &y));      // the changed segment must not merge with a neighbour into a longer run
+    let st = any_stress(); let tone: u16 = kani::any();
+    let mut sy = syll_of(&[@segs@], st, tone);
+    let alphas: RefCell<HashMap<char, Alpha>> = RefCell::new(HashMap::new());
+    let mut m = mods_new();
+    m.feats[@fi@] = Some(ModKind::Binary(b));
+    m.suprs.length = [@lmod@, None];
+    let r = sy.apply_seg_mods(&alphas, &m, 1, P);
+    match r { Ok(lc) => assert!(lc == @lc@, "role=length-change-reported"), Err(_) => assert!(false, "role=unexpected-error") }
+    assert!(sy.segments.len() == @n@, "role=segment-count");
+    assert!(sy.segments[0] == x && sy.segments[@last@] == y, "role=neighbours-unchanged");
+    assert!(@copies@, "role=every-copy-carries-the-named-feature");
+    assert!(sy.stress == st && sy.tone == tone, "role=stress-and-tone-unchanged");
+    kani::cover!(sy.segments[1] != a);
+    std::mem::forget(alphas); std::mem::forget(sy);
+}
+""", name=nm, fi=fi, segs=segs, lmod="bin(true)" if grow else "bin(false)", lc=1 if grow else -1, n=4 if grow else 3, last=3 if grow else 2,
+            copies="same_features(&sy.segments[1], &e) && same_features(&sy.segments[2], &e)" if grow else "same_features(&sy.segments[1], &e)", unwind=unwind),
+            functions=["Syllable::apply_seg_mods", "Syllable::apply_supras", "Syllable::get_seg_length_at", "Segment::apply_seg_mods"],
+            symbolic="3 bundles (a != neighbours before and after the change), polarity, stress, tone", shape="[%s], [%s, ±%s] at a" % (segs, "+long" if grow else "-long", fname(fi)), unwind=unwind, stubs=STUBS, cap_s=1500, weight=3))
+
     # ---------------------------------------------------------------- (e) alphas: capture by the matcher, use by the applier
     per_node = [2, 6, 11, 15, 16, 20, 24]           # one feature per node
     if tier == "quick":
